@@ -159,8 +159,9 @@ Definition hw_model (q : query) (qual : bool) : hout :=
    5: three or more tables, a WHERE clause and table-qualified names (the filter pushed below a nested
       join is ignored by execute_nested_join_recursive)
    6: three or more tables and a `column = column` conjunct in some ON (nested hash joins are not executed)
-   7: three or more tables and an outer join that is not the last one (execute_nested_join_recursive
-      runs every nested join as an inner join)   *)
+   7: three or more tables and an outer join other than a LEFT join in last position:
+      execute_nested_join_recursive runs every nested join as an inner join, and a final RIGHT / FULL
+      join pads its unmatched rows by the width of the first nested row (0 when the nested join is empty)  *)
 Definition any_outer (js : list (jtype * option expr)) : bool :=
   existsb (fun j => left_outer (fst j) || right_outer (fst j)) js.
 Definition any_equi (js : list (jtype * option expr)) : bool :=
@@ -194,7 +195,7 @@ Definition cls_sql (q : query) (qual : bool) : Z :=
       | _, js =>
           if is_some (q_where q) && qual then 5
           else if any_equi js then 6
-          else if any_outer (removelast js) then 7
+          else if any_outer (removelast js) || right_outer (fst (last js (JInner, None))) then 7
           else 0
       end
   end.
